@@ -523,7 +523,7 @@ def line_scenarios(rng, quick):
             {"kind": "cbreak", "body": ["cbreak-inner", "nonblocking-inner"], "tty": "raw"},
         ]
         ops_in = ["send0", "send_s", "ev", "tsafe", "sched", "sched_future", "unget", "feed"]
-        for _ in range(40):
+        for _ in range(150):
             kind = rng.choice(["input", "input", "full", "caw", "full+input", "caw+input"])
             cfg = {"sigint_event": rng.random() < .5, "dtss": rng.random() < .3,
                    "hide_cursor": rng.random() < .6, "keep_last_line": rng.random() < .5}
@@ -717,7 +717,7 @@ def run(ctx):
                 for se in (False, True):
                     run_reuse(ctx, {"kind": "reuse", "uses": list(uses), "sigint_event": se,
                                     "tty": rng.choice(TTY_MODES)})
-    for _ in range(ctx.share(24 if ctx.quick else 500)):
+    for _ in range(ctx.share(24 if ctx.quick else 1500)):
         run_sigint(ctx, {"kind": "sigint", "sigint_event": rng.random() < .5, "app": rng.random() < .5,
                          "delay": rng.choice([0.0, 0.001, 0.005, 0.02]) + rng.random() * 0.03,
                          "tty": rng.choice(TTY_MODES)})
